@@ -89,7 +89,7 @@ pub fn digest(sc: &Scenario) -> u64 {
 }
 
 fn viol(seed: u64, sc: &Scenario, class: String, detail: String) -> Violation {
-    let class = if sc.case.has_vardct && !class.starts_with("panic:") { format!("{class}+vardct") } else { class };
+    let class = sc.case.tag(class);
     Violation { property: "C11".into(), check: "c11".into(), class, detail, seed, scenario: serde_json::to_value(sc).unwrap() }
 }
 
